@@ -1044,3 +1044,48 @@ def deviates(ctx, rule: str, fi, node, got, wants, message: str, k: int = 3, abs
         return
     shown = "; ".join(got) if isinstance(got, (list, tuple)) else str(got)
     raise AnalysisError(f"{fi.where}: `{shown[:90]}` is not the expected construct nor a small edit of it ({rule}: {message[:80]})")
+
+
+# ----------------------------------------------------------------------------- existence is not truthiness
+
+
+def truthiness_of_elements(fi: "FuncInfo", listing_names) -> List[Tuple[ast.AST, str]]:
+    """Places where the *truth value* of an element of a listing (a call of one of ``listing_names``) is used where its existence
+    is meant: ``any(L(..))`` / ``all(..)`` over the listing itself, ``next(L(..), default)`` in a boolean position (if / while /
+    not / and / or / bool()) without an identity comparison.  The elements of such listings can be falsy (the empty tuple is the
+    one occurrence of the empty pattern, 0 is a start index)."""
+    out: List[Tuple[ast.AST, str]] = []
+
+    def is_listing(e: ast.AST) -> bool:
+        return isinstance(e, ast.Call) and isinstance(e.func, (ast.Attribute, ast.Name)) and (e.func.attr if isinstance(e.func, ast.Attribute) else e.func.id) in listing_names
+
+    parents: Dict[ast.AST, ast.AST] = {}
+    for p in ast.walk(fi.node):
+        for c in ast.iter_child_nodes(p):
+            parents[c] = p
+
+    def boolean_position(n: ast.AST) -> bool:
+        p = parents.get(n)
+        if isinstance(p, (ast.If, ast.While, ast.IfExp)) and p.test is n:
+            return True
+        if isinstance(p, ast.UnaryOp) and isinstance(p.op, ast.Not):
+            return True
+        if isinstance(p, ast.BoolOp):
+            return boolean_position(p) or True
+        if isinstance(p, ast.Call) and isinstance(p.func, ast.Name) and p.func.id == "bool":
+            return True
+        if isinstance(p, (ast.GeneratorExp, ast.ListComp)) and p.elt is n:
+            q = parents.get(p)
+            return isinstance(q, ast.Call) and isinstance(q.func, ast.Name) and q.func.id in ("any", "all")
+        if isinstance(p, ast.comprehension) and n in p.ifs:
+            return True
+        return False
+
+    for n in walk_no_nested(fi.node):
+        if isinstance(n, ast.Call) and isinstance(n.func, ast.Name) and n.func.id in ("any", "all") and len(n.args) == 1 and is_listing(n.args[0]):
+            out.append((n, f"`{unparse(n)[:70]}` tests the truth value of the listed elements"))
+        if isinstance(n, ast.Call) and isinstance(n.func, ast.Name) and n.func.id == "next" and len(n.args) == 2 and (is_listing(n.args[0]) or (isinstance(n.args[0], ast.Call) and isinstance(n.args[0].func, ast.Name)
+                                                                                                                 and n.args[0].func.id == "iter" and n.args[0].args and is_listing(n.args[0].args[0]))):
+            if boolean_position(n):
+                out.append((n, f"`{unparse(n)[:70]}` is used for its truth value"))
+    return out
